@@ -57,7 +57,7 @@ def run_profiles(ctx, profiles, n_per_profile, sizes=(4, 8, 14, 22)):
                         with core.time_limit(20):
                             ir_small = refinterp.shrink(ir, still)
                             small = refinterp.to_source(ir_small)
-                    except Exception:  # noqa
+                    except (Exception, core.Timeout):  # noqa
                         pass
                     ctx.violation("oracle", f"the language rules give {want[:2]} with output {want[2][:80]!r}; the implementation gives {got[:2]} with output {got[2][:80]!r}: {small[:300]}",
                                   dict(rp, shrunk=small))
@@ -94,16 +94,22 @@ def str_of_impl(impl, out):
 _orig_run = session.ImplSession.run
 
 
+_timeouts = [0]
+
+
 def _run_with_text(self, src, name="f", limit=5):
     from ckl.errors import CklRuntimeError, CklSyntaxError
     self.out.output = ""
     self.last_text = ""
+    if _timeouts[0] > 3:
+        limit = min(limit, 1)          # a tree on which programs hang: keep the run bounded
     try:
         with core.time_limit(limit):
             v = self.it.interpret(src, name)
             self.last_text = str(v)
             outcome = ('val', session.dump_rval(v))
     except core.Timeout:
+        _timeouts[0] += 1
         outcome = ('timeout',)
     except CklRuntimeError as e:
         try:
@@ -122,3 +128,46 @@ def _run_with_text(self, src, name="f", limit=5):
 
 
 session.ImplSession.run = _run_with_text
+
+
+def run_templates(ctx, cases, label):
+    """cases: (src, ('text', expected rendering) | ('error', expected error value rendering) | ('same', equivalent source)).
+    Each source runs on a cleared environment of the implementation; the value (rendered) and the printed output are compared with the
+    expectation; the source also goes to the model evaluator (correspondence)."""
+    reqs = [session.model_request([src], fuel=60000) for src, _ in cases] if ctx.build.ok else []
+    resp = core.run_driver(reqs) if reqs else []
+    impl = session.ImplSession()
+    try:
+        for k, (src, exp) in enumerate(cases):
+            ctx.seen((label, src), nontrivial=True)
+            ctx.count("templates_" + label)
+            impl.it.environment.map.clear()
+            out, printed, _ = impl.run(src)
+            got = (out[0], impl.last_text, printed)
+            rp = {"op": "program", "profile": label, "src": src}
+            if exp[0] == 'same':
+                impl.it.environment.map.clear()
+                o2, p2, _ = impl.run(exp[1])
+                want = (o2[0], impl.last_text, p2)
+                if o2[0] not in ('val', 'rt'):
+                    ctx.violation("oracle", f"`{exp[1]}` ends with {o2[:2]}", dict(rp, src=exp[1]))
+                elif got != want:
+                    ctx.violation("oracle", f"`{src}` gives {got[:2]} (output {got[2][:60]!r}) but the equivalent `{exp[1]}` gives {want[:2]} (output {want[2][:60]!r})",
+                                  dict(rp, equivalent=exp[1]))
+            else:
+                want = ('val' if exp[0] == 'text' else 'rt', exp[1])
+                if got[:2] != want:
+                    ctx.violation("oracle", f"`{src}` gives {got[:2]}, the language rules give {want}", dict(rp, expected=list(want)))
+            if resp:
+                model, ghost = session.parse_model_session(resp[k])
+                m = model[0]
+                ctx.count("model_programs")
+                if m[0][0] == 'fail':
+                    ctx.count("model_abstains")
+                    continue
+                d = session.compare((out, printed, ()), (m[0], m[1], ()))
+                if d:
+                    ctx.disagreements += 1
+                    ctx.violation("correspondence", f"{d}: {src[:300]}", dict(rp, correspondence="Ckl.eval vs Interpreter.interpret"))
+    finally:
+        impl.close()
